@@ -59,8 +59,14 @@ func (h *H) evalFault(c *core.Case, s *Scenario, dir, world string, r *run) {
 	}
 
 	// expected output: the same arguments in stdout mode on the pristine tree
+	snap0 := Snapshot(dir)
 	pristine := core.RunMoq(h.Env, rc, world)
 	r.note("moq_runs")
+	// without -out nothing in the tree is written at all (whether this run succeeds or fails)
+	if ch := Diff(snap0, Snapshot(dir)); len(ch) > 0 {
+		r.bad("C18", "stdout-mode-writes-nothing", "moq %v (no -out, exit %d) changed the tree: %v", pristine.Argv, pristine.Exit, ch)
+		return
+	}
 	if crashed, what := oracle.Crashed(pristine); crashed {
 		r.bad("C19", "no-crash", "moq %v: %s", pristine.Argv, what)
 		return
